@@ -174,9 +174,11 @@ impl Response {
             if line == "\r\n" {
                 break;
             } else {
-                safe_assert(line.len() >= 2)?;
-                let line_without_crlf = &line[0..line.len() - 2];
+                let line_without_crlf = line
+                    .strip_suffix("\r\n")
+                    .ok_or(ResponseError::Response)?;
                 let line_parts: Vec<&str> = line_without_crlf.splitn(2, ':').collect();
+                safe_assert(line_parts.len() == 2)?;
                 headers.add(HeaderType::from(line_parts[0]), line_parts[1].trim_start());
             }
         }
